@@ -71,7 +71,7 @@ pub fn len(prof: Prof) -> BoxedStrategy<usize> {
     Union::new_weighted(v).boxed()
 }
 
-pub const N_PATTERNS: u8 = 12;
+pub const N_PATTERNS: u8 = 13;
 
 /// deterministic expansion of a recipe into exactly `n` words (top word non-zero unless n == 0)
 pub fn expand(n: usize, pattern: u8, seed: u64) -> Vec<u64> {
@@ -150,6 +150,32 @@ pub fn expand(n: usize, pattern: u8, seed: u64) -> Vec<u64> {
                 *w = r.next();
             }
             v[n - 1] |= 1 << 63;
+        }
+        12 => {
+            // blocks: the number is cut into 2, 3, 4 or 6 equal segments (or at a random position);
+            // each segment is all zeros, all ones or random; top and bottom bit set at will.
+            // Long runs of equal words that start and end at the split points of the recursive
+            // multiplication / division algorithms make carries and borrows travel across a whole part.
+            let parts = [2usize, 3, 4, 6, 2, 3][r.below(6) as usize];
+            let cut = if r.below(4) == 0 { 1 + r.below(n as u64) as usize } else { 0 };
+            let seg = ((n + parts - 1) / parts).max(1);
+            let mut state = 0u64;
+            for (i, w) in v.iter_mut().enumerate() {
+                if i % seg == 0 || i == cut {
+                    state = r.below(20);
+                }
+                *w = match state {
+                    0..=8 => 0,
+                    9..=17 => u64::MAX,
+                    _ => r.next(),
+                };
+            }
+            if r.below(2) == 0 {
+                v[n - 1] |= 1 << 63;
+            }
+            if r.below(2) == 0 {
+                v[0] |= 1;
+            }
         }
         _ => {
             // high part all ones, low part random (carry chains)
